@@ -536,6 +536,9 @@ func scnAuthz(ctx *check.JobCtx) {
 	if !w.Halted() {
 		staleOrderOnRecreatedModel(a)
 	}
+	if !w.Halted() {
+		revokedBeforeCompletion(a)
+	}
 	w.Sample("authz matrix: %d models probed, trace head: %s", len(a.models), traceSummary(w))
 	w.Finish()
 }
